@@ -9,7 +9,7 @@
    [enc] is the output charset, universally quantified (bk_enc in the runs). *)
 From Coq Require Import ZArith List String Ascii Bool NArith.
 From Verif Require Import Base.Res Spec.PDP11 Spec.Arith Spec.DataSpec Model.Insns Model.Directives Model.Asm
-  Proofs.InsnsMain Proofs.AsmP Proofs.AsmSem Proofs.AsmTotal Proofs.AsmSized.
+  Proofs.InsnsMain Proofs.AsmP Proofs.AsmSem Proofs.AsmTotal Proofs.AsmSized Proofs.AsmMeta Proofs.AsmLaws Proofs.AsmMove.
 From Verif Require Model.Rad50.
 Import ListNotations.
 Notation length := Datatypes.length.
@@ -18,7 +18,8 @@ Open Scope string_scope.
 Open Scope list_scope.
 Open Scope Z_scope.
 
-(* the image is what the pieces are *)
+(* the image is what the pieces are (holds by the definition of assemble: kept as the bridge between the two
+   functions, not as a fact about the layout) *)
 Theorem R_image : forall enc p f, assemble_full enc p = XOk f ->
   assemble enc p = XOk (f_base f, concat (f_chunks f), f_syms f).
 Proof. exact image_thm. Qed.
@@ -32,7 +33,8 @@ Print Assumptions R_image.
    (every statement deferred, announcing the size the layout used). *)
 Theorem R_layout : forall enc p f, assemble_full enc p = XOk f ->
   length (f_chunks f) = length (f_items f) /\
-  flat (cut_end p) (map i_stmt (f_items f)) /\
+  flat (layout_count enc (collect_defs 0 0 (cut_end p)) (collect_keys 0 0 (cut_end p)) (f_exports f)
+          (S (length (collect_defs 0 0 (cut_end p))))) (cut_end p) (map i_stmt (f_items f)) /\
   (forall k it bs, nth_error (f_items f) k = Some it -> nth_error (f_chunks f) k = Some bs ->
       i_size it = zlen bs /\
       i_addr it = f_base f + zlen (concat (firstn k (f_chunks f))) /\
@@ -47,6 +49,15 @@ Theorem R_layout : forall enc p f, assemble_full enc p = XOk f ->
   zlen (concat (f_chunks f)) = fold_right (fun it acc => i_size it + acc) 0 (f_items f).
 Proof. exact layout_thm. Qed.
 Print Assumptions R_layout.
+
+(* [flat] records, for every .repeat, as many copies of its body as its count expression evaluates to where the
+   layout meets it ([layout_count]: Asm.lev + get_as_int(None, unsigned)); for a literal count that is the literal.
+   Known looseness of [flat]: flat_base lets any `. = e` appear as a silent Link; the model does so only for the
+   first base-fixing statement (lay_leaf: l_based false), which [flat] does not track. *)
+Theorem R_repeat_count_literal : forall enc alldefs allkeys exports fuel n k,
+  layout_count enc alldefs allkeys exports fuel (numlit n) k -> k = n.
+Proof. exact layout_count_literal. Qed.
+Print Assumptions R_repeat_count_literal.
 
 (* every instruction statement, also inside repeat copies: its operands evaluate (Spec.Arith.eval with the
    final symbol table, `.` = the statement's address) to source-level operands os, and -- unless an operand is
@@ -106,12 +117,69 @@ Theorem R_sized_consistent : forall enc ev addr s r sz bs,
 Proof. exact sized_consistent. Qed.
 Print Assumptions R_sized_consistent.
 
+(* ---- whole-program metamorphic laws (C03, C16) --------------------------------------------------------- *)
+(* same_outcome r r': both XOk with the same base, the same image and symbol tables that look up alike, or both
+   not XOk.  (The error identifiers can really differ: with `a = 1/0` and `b = undefined`, which error is met first
+   in the order of the definition table changes when a moves behind b.) *)
+
+(* R_move_def: a definition `n = e` may stand anywhere in its file before the End.  Hypotheses: no other label or
+   definition is named n; e mentions no local-label name of the program and no `.` -- the two things a definition
+   takes from its place (its local scope and its address); nothing between the two places is an End; the program
+   file itself is not `.extern all` (then the export table lists the definitions in source order).  A definition
+   that does use `.` or a local label means something else at the other place: see R_example_dot_def. *)
+Theorem R_move_def : forall enc n e l1 l2 l3,
+  Forall (fun y => is_end y = false) l1 -> Forall (fun y => is_end y = false) l2 ->
+  forallb (nodef n) (l1 ++ l2 ++ l3) = true ->
+  efree (lnames (l1 ++ l2 ++ l3)) e = true -> nodot e = true ->
+  existsb (Nat.eqb 0) (snd (collect_exports 0 (l1 ++ l2 ++ l3))) = false ->
+  same_outcome (assemble enc (l1 ++ Assign n e :: l2 ++ l3)) (assemble enc (l1 ++ l2 ++ Assign n e :: l3)).
+Proof. exact move_def. Qed.
+Print Assumptions R_move_def.
+
+(* R_repeat_unroll: `.repeat n { body }` with a literal count is the body written out n times, each copy at its
+   own addresses (its own `.`), anywhere in the program.  [plainf names body]: the body consists of instructions,
+   data / fill / string directives, insert_file, nested .repeat (what the code allows inside a repeat: no labels,
+   definitions, .link, `. =`, .include, .extern, .end) and mentions none of [names] = the local-label names of the
+   program -- inside a .repeat no local label is visible, at the top level the current scope is *)
+Theorem R_repeat_unroll : forall enc l1 l2 n body,
+  forallb (plainf (lnames (l1 ++ l2))) body = true ->
+  assemble enc (l1 ++ [Repeat (numlit n) body] ++ l2) = assemble enc (l1 ++ concat (repeat body n) ++ l2).
+Proof. exact repeat_unroll. Qed.
+Print Assumptions R_repeat_unroll.
+
+(* R_insert_is_bytes: insert_file is .byte of its bytes *)
+Theorem R_insert_is_bytes : forall enc l1 l2 bs,
+  bs <> [] -> Forall (fun b => 0 <= b < 256) bs ->
+  assemble enc (l1 ++ [Insert bs] ++ l2) = assemble enc (l1 ++ [Byte (map bytelit bs)] ++ l2).
+Proof. exact insert_is_bytes. Qed.
+Print Assumptions R_insert_is_bytes.
+
+(* R_end_cuts: End discards exactly the rest of its file, whatever it is *)
+Theorem R_end_cuts : forall enc l1 l2 l2', assemble_full enc (l1 ++ End :: l2) = assemble_full enc (l1 ++ End :: l2').
+Proof. exact end_discards_rest. Qed.
+Print Assumptions R_end_cuts.
+
+(* the general principle behind the two segment laws: an inert segment X (nothing a collector sees) may be replaced
+   by X' anywhere when their layouts agree up to a relation on placed statements that sizes and emission respect *)
+Theorem R_segment_law : forall enc (R : item -> item -> Prop) names l1 l2 X X',
+  (forall n, In n (lnames (l1 ++ l2)) -> smem n names = true) ->
+  Forall quiet X -> Forall quiet X' ->
+  (forall alldefs allkeys exports fuel st,
+      keys_named names allkeys -> locals_named names (l_labels st) ->
+      res_rel R (lay_list enc alldefs allkeys exports fuel false X st) (lay_list enc alldefs allkeys exports fuel false X' st)) ->
+  (forall exports T it it', locals_named names T -> R it it' ->
+      i_size it = i_size it' /\ emit_item enc exports T it = emit_item enc exports T it') ->
+  assemble enc (l1 ++ X ++ l2) = assemble enc (l1 ++ X' ++ l2).
+Proof. exact segment_law. Qed.
+Print Assumptions R_segment_law.
+
 (* R_guard_partial: what is NOT proved.  Statements without an announced size (.blkb .blkw .even .odd .align
    .ascii .asciz .rad50 `. = e` insert_file) are laid out with the length of what they emit under the labels and
    definitions known at that point; assemble re-evaluates them with the final table and answers
    Unsupported "size-guard" when a length differs.  That this never happens (monotonicity of the
    demand-driven evaluation in the set of laid-out labels) is not proved; it is counted on every run of the
-   correspondence (0 occurrences).  What IS proved is that the guard holds of every result: *)
+   correspondence (0 occurrences).  What IS proved is that the guard holds of every result -- which is true by the
+   definition of assemble_full's final `if` and says nothing beyond it: *)
 Theorem R_guard_partial : forall enc p f, assemble_full enc p = XOk f ->
   forallb size_ok (combine (f_items f) (f_chunks f)) = true.
 Proof. exact guard_thm. Qed.
@@ -147,6 +215,23 @@ Example R_example_include :
                    Byte [Sym "x"]; Even; Word [Sym "y"]] =
   XOk (512, [2; 1; 0; 2], [(KGlobal 1 "y", 512); (KGlobal 0 "x", 1); (KGlobal 1 "x", 2)]).
 Proof. vm_compute. reflexivity. Qed.
+
+(* the laws at work: a definition moved across a label and an instruction; a repeat unrolled; an End with junk *)
+Example R_example_move :
+  assemble bk_enc [Label "a"; Assign "k" (Bin BAdd (Sym "b") (num 1)); Word [Sym "k"]; Label "b"; Insn "nop" []] =
+  assemble bk_enc [Label "a"; Word [Sym "k"]; Label "b"; Assign "k" (Bin BAdd (Sym "b") (num 1)); Insn "nop" []].
+Proof. vm_compute. reflexivity. Qed.
+
+(* ... while a definition that uses `.` takes its value from where it stands *)
+Example R_example_dot_def :
+  assemble bk_enc [Assign "k" Dot; Insn "nop" []; Word [Sym "k"]] <> assemble bk_enc [Insn "nop" []; Assign "k" Dot; Word [Sym "k"]].
+Proof. vm_compute. discriminate. Qed.
+
+Example R_example_unroll :
+  assemble bk_enc [Label "s"; Repeat (numlit 3) [Word [Dot]; Byte [num 1]; Even]; Word [Sym "s"]] =
+  assemble bk_enc [Label "s"; Word [Dot]; Byte [num 1]; Even; Word [Dot]; Byte [num 1]; Even; Word [Dot]; Byte [num 1]; Even; Word [Sym "s"]]
+  /\ forallb (plainf (lnames [Label "s"; Word [Sym "s"]])) [Word [Dot]; Byte [num 1]; Even] = true.
+Proof. vm_compute. split; reflexivity. Qed.
 
 (* refusals are results, not crashes: a cycle, a branch out of reach, a count through a later label *)
 Example R_example_refusals :
